@@ -263,7 +263,9 @@ def handle (line : Json) : Json :=
   let specImpl := specRun c h implObs
   -- which single departure of the code from the property (if any) explains the observations
   let withF9 := specRunWith ⟨true, false⟩ c h implObs
-  let withF11 := specRunWith ⟨false, true⟩ c h implObs
+  -- the behaviour before fix 85b6178b (F11), alone and together with F9: tells the classifier when
+  -- exactly that old defect is back
+  let withF11 := specRunWith ⟨false, true⟩ c h implObs || specRunWith ⟨true, true⟩ c h implObs
   let clean := cleanRun c [] h
   let path :=
     (if h.any (fun s => match s.op with | .reload _ => true | _ => false) then "reload" else "load") ++
